@@ -43,6 +43,13 @@ def coherent_rows(t, like, u, x, logl, blobs, where, need_u=True, recompute=Fals
         bad.append(("x-never-evaluated", f"{where}: {miss} rows whose x was never passed to the likelihood"))
     if wrong:
         bad.append(("logl-not-of-x", f"{where}: row {wrong[0]}: stored logL {wrong[2]!r} but the likelihood returned {wrong[1]!r} at that x"))
+    if blobs is not None and like.mode == "blobview":
+        # the likelihood returns its argument as the blob: every stored blob is the stored x of the same row
+        B = np.asarray(blobs)
+        if B.shape != x.shape or B.tobytes() != np.ascontiguousarray(x, dtype=B.dtype).tobytes():
+            j = int(np.where(np.any(B.reshape(n, -1) != x.reshape(n, -1), axis=1))[0][0]) if B.shape == x.shape else 0
+            bad.append(("blob-of-other-record", f"{where}: row {j}: the likelihood returns its argument as the blob, stored blob {B[j] if B.shape == x.shape else B.shape} "
+                        f"but stored x {x[j]}"))
     if blobs is not None and like.mode in ("blobs", "blobs2", "blobs3"):
         for j in range(n):
             try:
